@@ -18,8 +18,8 @@ META = dict(
          'every visible commit of the change flagged visible and only hidden commits of it flagged hidden; with a '
          'disambiguation set a match inside the set wins and no match falls back to the whole index; bookmark/tag names that '
          'spell a prefix lengthen the reported length. TLC proves the transcription of composite.rs/id_prefix.rs meets these '
-         'contracts for every set of <= 4 ids of 3 digits over 2 (3 thorough) digits x every disambiguation subset x ref names. '
-         'The harness builds repositories of 60-120 (thorough 60-300) commits over several index segments with change ids '
+         'contracts for every set of <= 4 ids of 3 digits over 2 digits (thorough: <= 3 ids over 3 digits) x every disambiguation subset x ref names. '
+         'The harness builds repositories of 60-120 (thorough 60-200) commits over several index segments with change ids '
          'sharing up to 7 leading digits, commit ids steered to share 2-5 digits (best of 48 candidate descriptions), divergent '
          'and hidden commits, and prefix-like bookmark/tag names, reloads them from disk, and logs '
          'Index::{shortest_unique_commit_id_prefix_len, resolve_commit_id_prefix}, '
@@ -41,8 +41,8 @@ def run(ctx):
     vf.tlc_mc("MC_IdPrefix", "MC_IdPrefix_neg_one_short", expect_violation=True, workers=4, timeout=600)
     ctx.cov["tlc_runs"].append({"run": "negative:one_short", "outcome": "fails as required"})
     trace = ctx.path("prefix.ndjson")
-    ctx.harness("index", ["prefix", "--out", trace, "--seed", ctx.seed, "--n", ctx.q(5, 30), "--min", 60,
-                          "--max", ctx.q(120, 300)], env=scratch_env(), timeout=3000)
+    ctx.harness("index", ["prefix", "--out", trace, "--seed", ctx.seed, "--n", ctx.q(5, 10), "--min", 60,
+                          "--max", ctx.q(120, 200)], env=scratch_env(), timeout=3000)
     # one file per repository state: an "ids" record followed by its queries (the judge is stateful)
     files, cur = [], None
     with open(trace) as f:
